@@ -91,8 +91,8 @@ Definition check_case (c : case) : bool :=
 (* ---- exhaustive enumeration support: all op sequences of length n over a
    given op alphabet, folded into one rolling checksum that the Go side
    computes in the same order ---- *)
-Definition P : N := 1000000007%N.
-Definition mix (h x : N) : N := ((h * 31 + x + 1) mod P)%N.
+(* land-mask instead of mod: N.modulo costs milliseconds under vm_compute, N.land microseconds *)
+Definition mix (h x : N) : N := N.land (h * 31 + x + 1) 2147483647%N.
 
 Definition hash_opt (o : option sess) : N := match o with None => 0 | Some s => s + 1 end%N.
 Definition hash_entries (h : N) (l : list entry) : N :=
